@@ -11,7 +11,7 @@ import json, os, re
 from concurrent.futures import ThreadPoolExecutor
 from . import lib
 
-FIXED = '{"get_remove_if", "clear_accounting", "put_count_first"}'
+FIXED = '{"get_remove_if", "clear_accounting", "put_count_first", "cleanup_live"}'
 ALL_OPS = '{"get", "contains", "put", "put_exp", "remove", "clear"}'
 OPS5 = '{"get", "put", "put_exp", "remove", "clear"}'
 INIT3 = '{"none", "live", "exp"}'
@@ -28,6 +28,16 @@ def families(quick):
               dict(name="C_3x1_1key_pre3", Tasks="{1, 2, 3}", Keys="{1}", n=1, MaxPre=3, InitKinds=INIT3, OpNames=OPS5),
               dict(name="E_2x3_1key_pre1", Tasks="{1, 2}", Keys="{1}", n=3, MaxPre=1, InitKinds='{"none", "exp"}', OpNames='{"get", "put", "put_exp", "remove"}'),
               dict(name="F_2x2_2keys_pre1", Tasks="{1, 2}", Keys="{1, 2}", n=2, MaxPre=1, InitKinds='{"live", "exp"}', OpNames='{"get", "put", "remove", "clear"}')]
+    return f
+
+
+def sweep_families(quick):
+    """DiskCache::new_with_cleanup: task 1 plays the background cleanup task (one "sweep" = one tick)."""
+    ops = '{"get", "put", "put_exp", "remove", "clear", "sweep"}'
+    f = [dict(name="S_sweep2_vs_2ops_1key", Tasks="{1, 2}", Keys="{1}", n=2, MaxPre=2 if quick else 99, InitKinds=INIT3, OpNames=ops, SweepTasks="{1}"),
+         dict(name="S_sweep1_vs_1op_2keys", Tasks="{1, 2}", Keys="{1, 2}", n=1, MaxPre=99, InitKinds='{"live", "exp"}', OpNames=ops, SweepTasks="{1}")]
+    if not quick:
+        f.append(dict(name="S_sweep1_vs_2x1_1key", Tasks="{1, 2, 3}", Keys="{1}", n=1, MaxPre=99, InitKinds=INIT3, OpNames=ops, SweepTasks="{1}"))
     return f
 
 
@@ -91,14 +101,18 @@ def classify(ctx, trace, source, n, strict, relaxed, max_reports=4):
 MODELS = {"mem": dict(module="MC_CacheConc", variant=FIXED, invariants=["Books", "NeverNegative", "Emit"], properties=["NoLostPut"]),
           "disk": dict(module="MC_DiskConc", variant="{}", invariants=["Books", "NeverNegative", "IndexMatchesFile", "Emit"],
                        properties=["NoLostPut", "NoExpiredServed"])}
+MODELS["diskc"] = MODELS["disk"]
+MODELS["memc"] = dict(MODELS["mem"], invariants=["Books", "NeverNegative", "SweepClean", "Emit"])
 
 
 def mem_family(ctx, fam, kd, target="mem"):
     M = MODELS[target]
     fam = dict(fam, name=f"{target}_{fam['name']}")
     cfg = ctx.path(f"mc_{fam['name']}.cfg")
-    lib.write_cfg(cfg, {"Tasks": fam["Tasks"], "Keys": fam["Keys"], "MaxOps": fam["n"], "OpsPerTask": fam["n"], "Variant": M["variant"],
-                        "MaxPre": fam["MaxPre"], "InitKinds": fam["InitKinds"], "OpNames": fam["OpNames"]},
+    consts = {"Tasks": fam["Tasks"], "Keys": fam["Keys"], "MaxOps": fam["n"], "OpsPerTask": fam["n"], "Variant": M["variant"],
+              "MaxPre": fam["MaxPre"], "InitKinds": fam["InitKinds"], "OpNames": fam["OpNames"]}
+    consts["SweepTasks"] = fam.get("SweepTasks", "{}")
+    lib.write_cfg(cfg, consts,
                   "MCInit", "MCNext", invariants=M["invariants"], properties=M["properties"], constraints=["PreBound"])
     progs = ctx.path(f"sched_{fam['name']}.ndjson")
     r = lib.tlc(ctx, M["module"], cfg, tagged_out={"PROGRAM": progs}, timeout=1500, workers=min(lib.NCPU, 12))
@@ -136,12 +150,19 @@ def pinned_designs(ctx):
     """Model level only, informational: the pinned (pre-fix) designs must be refuted by TLC - this regenerates the
     counterexamples of F11a/F11c/F11d and shows the invariants are not vacuous."""
     out = {}
-    base = dict(Tasks="{1, 2}", Keys="{1}", MaxOps=1, OpsPerTask=1, MaxPre=99, InitKinds=INIT3, OpNames=ALL_OPS)
+    base = dict(Tasks="{1, 2}", Keys="{1}", MaxOps=1, OpsPerTask=1, MaxPre=99, InitKinds=INIT3, OpNames=ALL_OPS, SweepTasks="{}")
+    sweep_ops = '{"get", "put", "put_exp", "remove", "clear", "sweep"}'
     for module, variant, invs in [("MC_CacheConc", "{}", ["Books"]), ("MC_CacheConc", '{"get_remove_if", "clear_accounting"}', ["NeverNegative"]),
+                                  ("MC_CacheConc", '{"get_remove_if", "clear_accounting", "put_count_first"}', ["SweepClean"]),
                                   ("MC_DiskConc", '{"expired_blind"}', ["Books"]), ("MC_DiskConc", '{"publish_split"}', ["IndexMatchesFile"]),
-                                  ("MC_DiskConc", '{"no_recheck"}', ["Books"])]:
+                                  ("MC_DiskConc", '{"no_recheck"}', ["Books"]), ("MC_DiskConc", '{"cleanup_late_count"}', ["NeverNegative"])]:
         cfg = ctx.path(f"pinned_{module}_{len(out)}.cfg")
-        lib.write_cfg(cfg, dict(base, Variant=variant), "MCInit", "MCNext", invariants=invs)
+        c = dict(base, Variant=variant)
+        if "cleanup" in variant or "SweepClean" in invs:
+            c.update(SweepTasks="{1}", OpNames=sweep_ops)
+        if "SweepClean" in invs:
+            c.update(Tasks="{1}")      # the cleanup task alone: a tick must leave no expired entry behind
+        lib.write_cfg(cfg, c, "MCInit", "MCNext", invariants=invs)
         r = lib.tlc(ctx, module, cfg, timeout=600, workers=4, expect_violation=True)
         out[f"{module} Variant={variant}"] = r["invariant_violated"]
     ctx.cov["pinned_designs_refuted_on_model"] = out
@@ -208,6 +229,16 @@ def run(ctx):
         return replay(ctx, kd)
     total = 0
     first = None
+    if os.environ.get("VERIF_C11_ONLY") == "sweep":      # development aid: only the cleanup-task stages
+        for target in ("memc", "diskc"):
+            for fam in sweep_families(ctx.quick):
+                total += mem_family(ctx, fam, kd, target=target)[0]
+        pinned_designs(ctx)
+        for target in ("memc", "diskc"):
+            total += random_runs(ctx, target, 1500, 3, 3, 2, kd, f"s332{target}")
+            total += random_runs(ctx, target, 150, 4, 20, 2, kd, f"stress_{target}2")
+        ctx.cov["traces_validated_against_impl"] = total
+        return lib.finish(ctx, "model_checking", rule="development run: cleanup-task stages only")
     for fam in families(ctx.quick):
         n, trace = mem_family(ctx, fam, kd)
         total += n
@@ -218,19 +249,25 @@ def run(ctx):
         if fam["name"].startswith(("A_", "D_", "B_")):
             n, trace = mem_family(ctx, fam, kd, target="disk")
             total += n
+    for target in ("memc", "diskc"):
+        for fam in sweep_families(ctx.quick):
+            n, trace = mem_family(ctx, fam, kd, target=target)
+            total += n
     pinned_designs(ctx)
     nrand = 3000 if ctx.quick else 12000
     total += random_runs(ctx, "mem", nrand, 3, 3, 2, kd, "m332")
     total += random_runs(ctx, "mem", nrand, 2, 3, 1, kd, "m231")
     total += random_runs(ctx, "disk", nrand, 2, 2, 2, kd, "d222")
     total += random_runs(ctx, "disk", nrand // 2, 3, 2, 1, kd, "d321")
+    total += random_runs(ctx, "diskc", nrand // 2, 3, 3, 2, kd, "s332")
+    total += random_runs(ctx, "memc", nrand // 2, 3, 3, 2, kd, "c332")
     # DynamicContainer (write/read/query/remove + close/reopen probe), same monitor
     total += random_runs(ctx, "dyn", nrand // 2, 3, 2, 2, kd, "y322")
     total += random_runs(ctx, "dyn", nrand // 4, 2, 3, 1, kd, "y231")
     # long histories on real parallel threads (no schedule): windows that lie between sched points are only
     # reachable this way; 4 tasks x 20 operations, judged by the same monitor
     nstress = 150 if ctx.quick else 700
-    for target, keys in [("mem", 2), ("disk", 1), ("disk", 2), ("dyn", 2), ("dyn", 3)]:
+    for target, keys in [("mem", 2), ("disk", 1), ("disk", 2), ("diskc", 2), ("memc", 2), ("dyn", 2), ("dyn", 3)]:
         total += random_runs(ctx, target, nstress, 4, 20, keys, kd, f"stress_{target}{keys}")
     ctx.cov["traces_validated_against_impl"] = total
     ctx.cov["evaluations"] = total
